@@ -37,15 +37,17 @@ def stream_groups(pcfg, drop_markov):
     return [(p, sorted(k)) for p, k in out]
 
 
-def high_level_case():
+def high_level_case(prop='C14'):
     """the program itself on a ruleset whose Markov levels include levels above 10 (a level is a sum of costs; the trainer lists 1..18):
     the default run goes through all of them and emits, beside the Markov strings, exactly what `--skip_brute` emits"""
     from collections import Counter
     om = {'ngram': 2, 'alphabet': ['a', 'b'], 'ip': [[0, 'a'], [1, 'b']], 'ep': [[0, 'a'], [0, 'b']],
-          'cp': [[0, 'aa'], [1, 'ab'], [10, 'ba'], [0, 'bb']], 'ln': [10, 0, 1, 1], 'keyspace': []}
+          'cp': [[0, 'aa'], [10, 'ab'], [10, 'ba'], [10, 'bb']], 'ln': [10, 0, 1, 1], 'keyspace': []}
     spec = {'terminals': {'D1': [['1', '0.5'], ['2', '0.25'], ['3', '0.125']], 'A2': [['ab', '0.5'], ['cd', '0.25']], 'C2': [['LL', '0.75'], ['UL', '0.25']]},
             'grammar': [['D1', '0.25'], ['M', '0.5'], ['A2D1', '0.25']],
-            'omen_prob': [['1', '0.5'], ['11', '0.25'], ['2', '0.125'], ['12', '0.0625'], ['3', '0.03125'], ['18', '0.015625']],
+            # (levels of strings whose transitions are all at the highest level: `bab` = 1 + 1 + 10 + 10, `abbb` = 1 + 0 + 10 + 10 + 10)
+            'omen_prob': [['1', '0.5'], ['11', '0.25'], ['2', '0.125'], ['12', '0.0625'], ['10', '0.03125'], ['21', '0.015625'], ['22', '0.0078125'],
+                          ['0', '0.00390625'], ['31', '0.001953125'], ['32', '0.0009765625']],
             'prince': [], 'mode': 'dyadic', 'encoding': 'utf-8', 'omen': om}
     name = 'c14high'
     common.install_ruleset(spec, name)
@@ -58,7 +60,7 @@ def high_level_case():
     wit = {'high_level_case': True}
     # (exit codes and stderr say nothing here: the keyboard thread of a run without a terminal ends in its own way)
     if d0 - markov != d1 or not d1 or (d0 & markov) != markov:
-        return [{'property': 'C14', 'kind': 'skip-brute-not-default-minus-markov', 'default_lines': sum(d0.values()), 'skip_brute_lines': sum(d1.values()),
+        return [{'property': prop, 'kind': 'skip-brute-not-default-minus-markov', 'default_lines': sum(d0.values()), 'skip_brute_lines': sum(d1.values()),
                  'markov_strings': sum(markov.values()), 'only_in_default': list((d0 - markov - d1).items())[:4], 'only_in_skip_brute': list((d1 - d0).items())[:4],
                  'markov_missing': list((markov - d0).items())[:4],
                  'stderr_tail': e0.decode(errors='replace')[-200:], 'witness': wit}]
